@@ -226,6 +226,7 @@ func nsRemoteOK(offsets []int, n int) bool {
 //@ ensures no-remote: vForall(0, len(ns.offsets), func(i int) bool { return ns.offsets[i] >= 0 })
 //@ ensures depth: len(ns.offsets) == old(len(ns.offsets))
 //@ ensures alias: sameOrFresh(ns.unquotedNames, old(ns.unquotedNames))
+//@ ensures quoted-unchanged: old(nsQuoted(ns.offsets, b)) ==> unchanged(b)
 //@ ensures buffer: vForall(0, len(b), func(j int) bool { return b[j] == old(b[j]) || (old(b[j]) == invalidateBufferByte && b[j] == '"') })
 //@ loop 0 invariant -1 <= i && i < len(ns.offsets) && vForall(i+1, len(ns.offsets), func(k int) bool { return ns.offsets[k] < 0 })
 //@ loop 0 decreases i + 1
@@ -234,5 +235,6 @@ func nsRemoteOK(offsets []int, n int) bool {
 //@ loop 1 invariant todo: vForall(i, len(ns.offsets), func(k int) bool { return ns.offsets[k] < 0 && ns.offsets[k] == old(ns.offsets[k]) })
 //@ loop 1 invariant buffer: vForall(0, len(b), func(j int) bool { return b[j] == old(b[j]) || (old(b[j]) == invalidateBufferByte && b[j] == '"') })
 //@ loop 1 invariant distinct: distinctArrays(ns.unquotedNames, b)
+//@ loop 1 invariant quoted-unchanged: old(nsQuoted(ns.offsets, b)) ==> unchanged(b)
 //@ loop 1 invariant alias: sameOrFresh(ns.unquotedNames, old(ns.unquotedNames))
 //@ loop 1 decreases len(ns.offsets) - i
